@@ -697,6 +697,10 @@ func (p *Path) assertObligKnown(cond *Term, label string, known *Term, finding s
 		return
 	}
 	v := p.ss.decide(append(p.sliceFor(neg), neg), nil, p.ex.obligTO, p.ex.useCVC)
+	if v.Result == "inconclusive" {
+		// a loaded machine makes the cap a matter of scheduling: one more attempt with three times the cap
+		v = p.ss.decide(append(p.sliceFor(neg), neg), nil, 3*p.ex.obligTO, true)
+	}
 	ob.Solvers = v.Solvers
 	switch v.Result {
 	case "unsat":
